@@ -100,7 +100,9 @@ def _toDOMname(CSSname):
     return _reCSStoDOMname.sub(_doCSStoDOMname2, CSSname)
 
 
-_reDOMtoCSSname = re.compile('([A-Z])[a-z]+')
+# a capital followed by lower case letters, or a single capital at the end
+# of a word as in overflowX
+_reDOMtoCSSname = re.compile('([A-Z])[a-z]+|(?<=[a-z])[A-Z](?![A-Za-z])')
 
 
 def _toCSSname(DOMname):
